@@ -108,6 +108,37 @@ theorem C12_ends_with_error (rd : Reader) : ∃ c, (framesRead rd).end_ = .err c
   | err c => exact ⟨c, rfl⟩
   | fault w => exact (C12_no_fault_reader rd w h).elim
 
+/-- buffer management at the level of the backing array (`bigBuffer` with its stale bytes, `buffer` = window [lo, lo+len)):
+    `readMore` — shift to the front by memmove, reallocation, read into `buffer[len:cap]` — acts on (window contents,
+    spare capacity, len(bigBuffer)) exactly as `Qfx.Framer.readMore` does on the model state, and keeps the window inside
+    the array; so the model's `buf`/`spare`/`big` are a faithful image of Go's slices. -/
+theorem C12_readMore_refines_array (m : M) (h : m.Inv) :
+    match fillM (growM m) with
+    | .ok (n, e, m') => readMore m.toP = .ok (n, e, m'.toP) ∧ m'.Inv
+    | .err x => readMore m.toP = .err x
+    | .fault w => readMore m.toP = .fault w :=
+  readMoreM_toP m h
+
+/-- … and so does the re-slicing `p.buffer = p.buffer[k:]` (k ≤ len) -/
+theorem C12_slice_refines_array (k : Nat) (m : M) (h : m.Inv) (hk : k ≤ m.len) :
+    (sliceM k m).toP = { m.toP with buf := m.toP.buf.drop k } ∧ (sliceM k m).Inv :=
+  sliceM_toP k m h hk
+
+/-- the whole parser written on the backing array (`Qfx/Model/FramerMem.lean`: `findIdxM` … `runGM`, same control flow, the
+    window `bigBuffer[lo:lo+len]` in place of the model's `buf`) extracts the same frames and terminal error — hence the
+    whole-stream function of the content: shifting, growing and reading behind the window never corrupt a frame. -/
+theorem C12_array_level (rd : Reader) : framesReadM rd = framesWholeE rd.endErr rd.chunks.flatten := by
+  rw [framesReadM_eq]; exact C12_chunk_independent_reader rd
+
+/-! non-vacuity: a Heartbeat is a well-formed frame; junk ending in '8' is a legal separator; two reads that cut
+    the message inside "9=" give that message -/
+example : wfFrame (asciiOf "8=FIX.4.2\x019=5\x0135=0\x0110=161\x01") = true := by decide
+example : noBegin (asciiOf "\r\n=8 8") = true := by decide
+example : noBegin (asciiOf "x8=") = false := by decide
+example : framesChunked true [asciiOf "zz88=FIX.4.2\x019", asciiOf "=5\x0135=0\x0110=161\x01 8"] =
+    { frames := [asciiOf "8=FIX.4.2\x019=5\x0135=0\x0110=161\x01"], end_ := .err "eof" } :=
+  C12_exact_chunked ⟨asciiOf "zz8", [(asciiOf "8=FIX.4.2\x019=5\x0135=0\x0110=161\x01", asciiOf " 8")]⟩ (by decide) true _ (by decide)
+
 /-- the defect repaired by the `fix:` commit: with the original arithmetic `offset + length` wraps negative … -/
 theorem C12_orig_overflow_witness : wrap64 ((15 : Int) + 9223372036854775807) < 0 := by decide
 
